@@ -2,9 +2,11 @@
 C15 — size, hop-count, recipient-count and bad-command limits are enforced.
 Session-level clauses (recipient count, bad commands, SIZE= parameter) are proved here over the
 command-loop model; the constants come from the source on every run (`Gen.maxRcpt`,
-`Gen.maxBadCmds`).  The data-phase clauses (stored size, Received: count) live with the `Data` model.
+`Gen.maxBadCmds`).  The data-phase clauses (stored size, Received: count) are theorems about the `Data`
+model of `smtp_data()` (Lemmas/DataLimits.lean), restated at the end of this file.
 -/
 import QsmtpModel.Lemmas.Session
+import QsmtpModel.Lemmas.DataLimits
 
 namespace QsmtpModel.Props.C15
 open QsmtpModel QsmtpModel.Session
@@ -119,5 +121,99 @@ theorem limits_as_in_source : Gen.maxRcpt = 500 ∧ Gen.maxBadCmds = 5 ∧ Gen.m
 
 example : (afterGarbage {} {} 7).closed = true := by decide
 example : (afterGarbage {} {} 6).closed = false := by decide
+
+/-! ### Data phase: stored size and `Received:` count (model `Data.smtpData` of qsmtpd/data.c)
+
+`txSize ls` is the stored size of the message lines `ls` (every line without its transparency dot,
+plus CRLF); `receivedCount (hdrBlock ls)` the number of `Received:` fields in front of the first
+empty line.  The first four theorems hold for **every** configuration (submission mode, RfC 2822
+header checks on or off), every reader stream and every behaviour of the queue side. -/
+section data
+open QsmtpModel.Data QsmtpModel.Data.Limits QsmtpModel.Queue
+open QsmtpModel.Netio (Rd)
+
+/-- **Size limit, as given (first half).**  A message is acknowledged only if its stored size is
+within `control/databytes`. -/
+theorem size_limit_no_handoff (c : Cfg) (rds : List Rd) (tr : List Sys)
+    (h : (smtpData c rds tr).accepted = true) :
+    ∃ (ls : List (List Byte)) (rest : List Rd), rds = ls.map Rd.line ++ Rd.line [DOT] :: rest ∧
+      (∀ l ∈ ls, l ≠ [DOT]) ∧ txSize ls ≤ c.maxbytes :=
+  Limits.size_limit_no_handoff c rds tr h
+
+/-- the same as a refusal: a message over the limit is never acknowledged -/
+theorem oversize_not_accepted (c : Cfg) (ls : List (List Byte)) (rest : List Rd) (tr : List Sys)
+    (hls : ∀ l ∈ ls, l ≠ [DOT]) (hsz : txSize ls > c.maxbytes) :
+    (smtpData c (ls.map Rd.line ++ Rd.line [DOT] :: rest) tr).accepted = false :=
+  Limits.oversize_not_accepted c ls rest tr hls hsz
+
+/-- **Hop limit, as given (first half).**  A message is acknowledged only if its header block has at
+most `Gen.maxHops` (100) `Received:` fields — whatever else the header contains and in whatever
+order, in every mode. -/
+theorem hop_limit_no_handoff (c : Cfg) (rds : List Rd) (tr : List Sys)
+    (h : (smtpData c rds tr).accepted = true) :
+    ∃ (ls : List (List Byte)) (rest : List Rd), rds = ls.map Rd.line ++ Rd.line [DOT] :: rest ∧
+      (∀ l ∈ ls, l ≠ [DOT]) ∧ receivedCount (hdrBlock ls) ≤ Gen.maxHops :=
+  Limits.hop_limit_no_handoff c rds tr h
+
+theorem overhops_not_accepted (c : Cfg) (ls : List (List Byte)) (rest : List Rd) (tr : List Sys)
+    (hls : ∀ l ∈ ls, l ≠ [DOT]) (hh : receivedCount (hdrBlock ls) > Gen.maxHops) :
+    (smtpData c (ls.map Rd.line ++ Rd.line [DOT] :: rest) tr).accepted = false :=
+  Limits.overhops_not_accepted c ls rest tr hls hh
+
+/-- `Received:` lines behind the first empty line do not count -/
+theorem received_in_body_not_counted (hdr body : List (List Byte)) (h : ∀ w ∈ hdr, w ≠ []) :
+    receivedCount (hdrBlock (hdr ++ [] :: body)) = receivedCount hdr :=
+  Limits.receivedCount_hdrBlock_append_body hdr body h
+
+/-- **The replies** on a plain run (`Plain`: no submission mode, no RfC 2822 checks, the queue side
+works): over the size limit → 552, nothing handed over, the rest of the message consumed. -/
+theorem size_over_refused_552 {c : Cfg} {rds : List Rd} {tr : List Sys} {ls : List (List Byte)} {rest : List Rd}
+    {q2 : QSt} (P : Plain c rds tr ls rest q2)
+    (hsz : txSize ls > c.maxbytes) (hh : receivedCount (hdrBlock ls) ≤ Gen.maxHops) :
+    (smtpData c rds tr).accepted = false ∧ (smtpData c rds tr).rc = .emsgsize ∧
+      (smtpData c rds tr).replies = [354] ∧ (smtpData c rds tr).rest = rest ∧
+      (smtpData c rds tr).died = false ∧ finalReply (smtpData c rds tr) = some 552 :=
+  Limits.size_over_refused_552 P hsz hh
+
+/-- within the limit → never refused for size -/
+theorem size_within_not_refused_for_size {c : Cfg} {rds : List Rd} {tr : List Sys} {ls : List (List Byte)}
+    {rest : List Rd} {q2 : QSt} (P : Plain c rds tr ls rest q2) (hsz : txSize ls ≤ c.maxbytes) :
+    (smtpData c rds tr).rc ≠ .emsgsize :=
+  Limits.size_within_not_refused_for_size P hsz
+
+/-- more than 100 `Received:` fields → 554 as looping -/
+theorem hops_over_refused_554 {c : Cfg} {rds : List Rd} {tr : List Sys} {ls : List (List Byte)} {rest : List Rd}
+    {q2 : QSt} (P : Plain c rds tr ls rest q2)
+    (hh : receivedCount (hdrBlock ls) > Gen.maxHops) (hsz : txSize ls ≤ c.maxbytes) :
+    (smtpData c rds tr).replies = [354, Gen.Data.loopNetmsgCode] ∧ (smtpData c rds tr).rc = .edone ∧
+      (smtpData c rds tr).accepted = false ∧ (smtpData c rds tr).rest = rest ∧
+      (smtpData c rds tr).died = false ∧ finalReply (smtpData c rds tr) = some 554 :=
+  Limits.hops_over_refused_554 P hh hsz
+
+/-- within both limits → the message is handed to qmail-queue and the reply is qmail-queue's -/
+theorem within_limits_queued {c : Cfg} {rds : List Rd} {tr : List Sys} {ls : List (List Byte)} {rest : List Rd}
+    {q2 : QSt} (P : Plain c rds tr ls rest q2)
+    (hsz : txSize ls ≤ c.maxbytes) (hh : receivedCount (hdrBlock ls) ≤ Gen.maxHops) :
+    ∃ w, firstWait q2.trace = some w ∧ (smtpData c rds tr).replies = [354, resultCode w] ∧
+      (smtpData c rds tr).rc = (if resultCode w = 250 then .ok else .edone) ∧
+      (smtpData c rds tr).accepted = decide (resultCode w = 250) ∧ (smtpData c rds tr).rest = rest ∧
+      (smtpData c rds tr).died = false :=
+  Limits.within_limits_queued P hsz hh
+
+/-- ... so a 554 within the limits is qmail-queue's own permanent error, not the loop refusal -/
+theorem hops_within_not_looping {c : Cfg} {rds : List Rd} {tr : List Sys} {ls : List (List Byte)} {rest : List Rd}
+    {q2 : QSt} (P : Plain c rds tr ls rest q2)
+    (hsz : txSize ls ≤ c.maxbytes) (hh : receivedCount (hdrBlock ls) ≤ Gen.maxHops)
+    (h554 : (smtpData c rds tr).replies = [354, Gen.Data.loopNetmsgCode]) :
+    ∃ n, firstWait q2.trace = some (.exited n) ∧ Gen.queuePermLo ≤ n ∧ n ≤ Gen.queuePermHi :=
+  Limits.hops_within_not_looping P hsz hh h554
+
+/-- non-vacuity: the hypotheses `Plain` are satisfiable, and the boundary cases evaluate as stated
+(the 101st `Received:` is refused, the 100th is not) -/
+example := @Limits.plain_example
+example := @Limits.hundred_and_first_received_554
+example := @Limits.hundred_received_accepted
+
+end data
 
 end QsmtpModel.Props.C15
